@@ -64,6 +64,9 @@ func (x *xtr) assigned(stmts []ast.Stmt, declared, out map[string]bool) {
 					continue
 				}
 				mark(lvalueBase(l))
+				if id, ok := l.(*ast.Ident); ok {
+					mark(x.capVars[id.Name]) // an append to the slice also sets its capacity variable
+				}
 			}
 		case *ast.IncDecStmt:
 			mark(lvalueBase(t.X))
@@ -199,6 +202,11 @@ func (x *xtr) references(nodes ...ast.Node) map[string]bool {
 		case *ast.CallExpr:
 			if isIdent(t.Fun, "append") && x.env["growCap"] != nil {
 				r["growCap"] = true
+			}
+			if isIdent(t.Fun, "cap") && len(t.Args) == 1 {
+				if id, ok := t.Args[0].(*ast.Ident); ok && x.capVars[id.Name] != "" {
+					r[x.capVars[id.Name]] = true
+				}
 			}
 		case *ast.KeyValueExpr:
 			ast.Inspect(t.Value, walk)
@@ -568,6 +576,9 @@ func (x *xtr) assign(t *ast.AssignStmt) string {
 				if ty, ok = x.env[id.Name]; !ok {
 					x.bad(l, "assignment to unknown %s", id.Name)
 				}
+				if _, ok := x.capVars[id.Name]; ok {
+					x.bad(l, "assignment to %s, whose capacity is modelled, that is not an append", id.Name)
+				}
 			}
 			names = append(names, id.Name)
 			tys = append(tys, parenT(ty.lean()))
@@ -615,6 +626,19 @@ func (x *xtr) assign(t *ast.AssignStmt) string {
 		}
 		if ty.k == kFunc {
 			x.bad(t, "assignment to a function variable")
+		}
+		if cv, ok := x.capVars[l.Name]; ok {
+			// the capacity of this slice variable is modelled (spec.CapVars): only `v = append(v, ..)` may assign it
+			ap, isCall := rhs.(*ast.CallExpr)
+			if !isCall || t.Tok != token.ASSIGN || !isIdent(ap.Fun, "append") || len(ap.Args) < 1 || !isIdent(ap.Args[0], l.Name) {
+				x.bad(t, "assignment to %s, whose capacity is modelled, that is not `%s = append(%s, ..)`", l.Name, l.Name, l.Name)
+			}
+			if x.env["growCap"] == nil || x.env[cv] == nil || x.env[cv].k != kInt {
+				x.bad(t, "append to %s needs the parameter growCap (spec.Prims) and the int variable %s", l.Name, cv)
+			}
+			x.usesRtX = true
+			return fmt.Sprintf("let %s : %s := %s\nlet %s : Int := Go.capAppend growCap %s (Go.len %s)", ident(l.Name), ty.lean(), value(nil, ty),
+				ident(cv), ident(cv), ident(l.Name))
 		}
 		x.noteAlias(l.Name, rhs, ty)
 		return fmt.Sprintf("let %s : %s := %s", ident(l.Name), ty.lean(), value(nil, ty))
@@ -717,6 +741,9 @@ func (x *xtr) parallelStore(t *ast.AssignStmt) string {
 		var ety *xty
 		switch lt := l.(type) {
 		case *ast.Ident:
+			if _, ok := x.capVars[lt.Name]; ok {
+				x.bad(l, "assignment to %s, whose capacity is modelled, that is not an append", lt.Name)
+			}
 			ety = x.env[lt.Name]
 		case *ast.IndexExpr:
 			for b := range bases {
@@ -808,6 +835,9 @@ func (x *xtr) assignTuple(t *ast.AssignStmt) string {
 		if id.Name == "_" {
 			names = append(names, "_")
 			continue
+		}
+		if _, ok := x.capVars[id.Name]; ok {
+			x.bad(l, "assignment to %s, whose capacity is modelled, that is not an append", id.Name)
 		}
 		if t.Tok == token.DEFINE {
 			if _, exists := x.env[id.Name]; !exists {
